@@ -3,6 +3,7 @@ import Req.Client.Form
 import Req.Client.Multipart
 import Req.Client.Body
 import Req.Client.Progress
+import Req.Client.EarlyResponse
 /-! Driver lanes of C17. -/
 namespace Req.Driver.L.C17
 open Req.Proto
@@ -241,7 +242,36 @@ def laneProgR : List String → String
     | _, _, _ => "bad-op"
   | _ => "bad-op"
 
+/-! ### early answers while the upload is in flight -/
+
+def decodeProto : String → Option Req.EarlyResponse.Proto
+  | "h1" => some .h1 | "h2" => some .h2 | "h3" => some .h3 | _ => none
+
+def showVerdict : Req.EarlyResponse.Verdict → String
+  | .ok => "ok" | .uploadCut => "upload-cut" | .garbage => "not-a-prefix" | .responseLost => "response-lost"
+
+/-- `c17early <proto> <interim codes> <status|0> <declared|-> <bodySent> <fin> <stop> <finalStatus>
+<uploadComplete> <prefixOK> <obsStatus>` → `may-stop|must-complete <verdict>`: the model's rule for the
+early answer and its judgement of what the origin and the caller observed. -/
+def laneEarly : List String → String
+  | [pr, ints, st, decl, sent, fin, stop, fs, uc, pf, os] =>
+    let r : Option String := do
+      let p ← decodeProto pr
+      let ints ← decodeNatList ints
+      let st ← st.toNat?
+      let decl ← if decl == "-" then some none else decl.toNat?.map some
+      let sent ← sent.toNat?
+      let fs ← fs.toNat?
+      let os ← os.toNat?
+      let x : Req.EarlyResponse.Early := ⟨ints, st, decl, sent, fin == "1", stop == "1"⟩
+      let o : Req.EarlyResponse.Obs := ⟨uc == "1", pf == "1", os⟩
+      pure ((if x.mayStop p then "may-stop " else "must-complete ") ++
+        showVerdict (Req.EarlyResponse.judge p x fs o))
+    r.getD "bad-op"
+  | _ => "bad-op"
+
 def lanes : List (String × (List String → String)) := [
+  ("c17early", laneEarly),
   ("c17ordered", laneOrdered),
   ("c17form", laneForm),
   ("c17parseq", laneParseQ),
